@@ -50,6 +50,14 @@ CHECKS.update({
                      "and all (pairs of) default tokens of the look-alike universe; on the real code every case must call the constructor "
                      "exactly once, bind present fields to loaded values, and leave absent fields typed-equal (identical for singletons, "
                      "fresh for factories) to the declared default, for plain / dataclass / attrs / NamedTuple classes."),
+    "C19": dict(technique="TLA+ spec Layout.tla treats names/keys as uninterpreted tokens (model invariant under renaming); the TLC-enumerated "
+                          "programs are replayed under hostile name/key dictionaries and must reproduce the model's outcomes; canary for execution",
+                category="model_checking", design_ref="6/C19",
+                note="trusts: hostile dictionaries in vf/props/c19.py (identifiers of the generators, builtins, keyword_ names, non-ASCII, "
+                     "quotes/backslashes/braces/$/newlines/NUL/code fragments); field names stay legal identifiers; converter names via c13",
+                text="Because the specification never inspects a name, every enumerated Layout program has the same verdict under any injective "
+                     "renaming; the real generators are run on the same programs with 9 hostile dictionaries and must still create the program, "
+                     "give every probe its model outcome (loader, dumper, errors, extras) and never execute supplied text (canary)."),
     "C10": dict(technique="TLA+ spec Preds.tla (Match over predicate syntax trees and location stacks) model-checked by TLC: documented "
                           "identities as invariants; per-expression verdict vectors replayed on the real checkers",
                 category="model_checking", design_ref="6/C10",
